@@ -1,66 +1,55 @@
-"""C13 tables: the TYPE_LIST of every container class, read from the class bodies in
-pyxel/data_structure/*.py (ast, no import).  An element is `np.dtype(np.<name>)`, `np.<name>`,
-`np.dtype("<name>")` or "<name>"; anything else is emitted as "?" (the model maps it to `other`,
-which no kind allows).  A class that does not define TYPE_LIST itself gets the list of its base
-class in the same table (ArrayBase's `()`), i.e. what Python's attribute lookup finds."""
-import ast
+"""C13 tables: the TYPE_LIST of every container class, obtained by EVALUATING the classes of the tree under
+translation (`extract.run_in_repo`): `[str(np.dtype(t)) for t in cls.TYPE_LIST]` — whatever way the class body spells
+it (literal tuple, module-level constant, inherited).  A class that cannot be found gets an empty list (the obligation
+over it then fails and the check goes on with the search); if the probe itself fails the FALLBACK (empty table) is used."""
+from extract import llist, lpair, lstr, run_in_repo
 
-from extract import find_class, llist, lpair, lstr, parse
-
-CLASSES = [
-    ("Photon", "pyxel/data_structure/photon.py"),
-    ("Pixel", "pyxel/data_structure/pixel.py"),
-    ("Signal", "pyxel/data_structure/signal.py"),
-    ("Image", "pyxel/data_structure/image.py"),
-    ("Phase", "pyxel/data_structure/phase.py"),
-]
+CLASSES = ["Photon", "Pixel", "Signal", "Image", "Phase"]
 
 FALLBACK = "def typeLists : List (String × List String) := []"
 
+PROBE = r'''
+import importlib, json
+import numpy as np
 
-def _elt_name(e) -> str:
-    # np.dtype(X)
-    if isinstance(e, ast.Call) and isinstance(e.func, ast.Attribute) and e.func.attr == "dtype" and len(e.args) == 1:
-        return _elt_name(e.args[0])
-    if isinstance(e, ast.Attribute):  # np.float16
-        return e.attr
-    if isinstance(e, ast.Constant) and isinstance(e.value, str):
-        return e.value
-    if isinstance(e, ast.Name):  # float / int builtins
-        return {"float": "float64", "int": "int64", "bool": "bool", "complex": "complex128"}.get(e.id, "?")
-    return "?"
+def find(name):
+    for modname in ("pyxel.data_structure", "pyxel.data_structure." + name.lower()):
+        try:
+            mod = importlib.import_module(modname)
+        except Exception:
+            continue
+        cls = getattr(mod, name, None)
+        if isinstance(cls, type):
+            return cls
+    return None
 
-
-def _type_list(cls: ast.ClassDef | None):
-    """the TYPE_LIST assigned in the class body, or None if the class has none of its own"""
-    if cls is None:
-        return None
-    found = None
-    for st in cls.body:
-        tgt = val = None
-        if isinstance(st, ast.AnnAssign) and isinstance(st.target, ast.Name):
-            tgt, val = st.target.id, st.value
-        elif isinstance(st, ast.Assign) and len(st.targets) == 1 and isinstance(st.targets[0], ast.Name):
-            tgt, val = st.targets[0].id, st.value
-        if tgt == "TYPE_LIST":
-            if isinstance(val, (ast.Tuple, ast.List)):
-                found = [_elt_name(e) for e in val.elts]
-            else:
-                found = ["?"]
-    return found
+out = []
+for name in %r:
+    cls = find(name)
+    names = []
+    if cls is not None:
+        try:
+            for t in cls.TYPE_LIST:
+                try:
+                    dt = np.dtype(t)
+                    n = str(dt)
+                    if dt == np.dtype(np.longdouble) and dt.itemsize > 8:
+                        n = "longdouble"
+                    elif dt == np.dtype(np.clongdouble) and dt.itemsize > 16:
+                        n = "clongdouble"
+                    names.append(n)
+                except Exception:
+                    names.append("?")
+        except Exception:
+            names = []
+    out.append([name, names])
+print(json.dumps(out))
+''' % (CLASSES,)
 
 
 def gen() -> str:
-    base = _type_list(find_class(parse("pyxel/data_structure/array.py"), "ArrayBase")) or []
-    rows = []
-    for name, rel in CLASSES:
-        cls = find_class(parse(rel), name)
-        if cls is None:
-            rows.append((name, []))
-            continue
-        own = _type_list(cls)
-        if own is None:
-            inherits = any(getattr(b, "id", getattr(b, "attr", None)) == "ArrayBase" for b in cls.bases)
-            own = list(base) if inherits else []
-        rows.append((name, own))
+    rows = run_in_repo(PROBE)
+    if not isinstance(rows, list) or len(rows) != len(CLASSES):
+        return FALLBACK
+    rows = [(str(n), [str(x) for x in l]) for n, l in rows]
     return "def typeLists : List (String × List String) := " + llist(rows, lpair(lstr, lambda l: llist(l)))
